@@ -4,7 +4,7 @@
    (pyais/queue.py); spec_deliveries, WF, schedule_lines are in Spec/AssembleSpec.v. *)
 From Coq Require Import ZArith List Bool.
 Require Import Prim.Exn Prim.Bits Prim.PyList Model.Sentence Model.AssembleIter Model.Assemble Spec.AssembleSpec
-               Proofs.AssembleProofs.
+               Proofs.AssembleProofs Proofs.AssembleBounded.
 Import ListNotations.
 Open Scope Z_scope.
 
@@ -101,3 +101,96 @@ Proof.
       try discriminate; try (inversion E; destruct p; discriminate).
   - intros e H. simpl in H. repeat (destruct H as [H|H]; [try discriminate H; inversion H; reflexivity|]). destruct H.
 Qed.
+
+(* ================================================================ BACKPRESSURE EXTENSION OF THE NMEAQueue CLAUSES
+
+   NMEAQueue(maxsize=n) with put_line(line, block=False) (or a timeout): the final put of put_line may raise queue.Full.
+   queue_step_b (Model/Assemble.v) is put_line with that put made explicit; per line the environment says whether the put
+   would be accepted (BqPutOk / BqPutFull) -- the capacity arithmetic and the consumer are NOT modelled, so everything below
+   holds for every capacity and every consumer.  The caller catches queue.Full and goes on with the next line (it does not
+   offer the refused line again).  Proofs in Proofs/AssembleBounded.v.
+
+   Backpressure only drops whole messages: state, deliveries and wrappers are those of the unbounded queue, minus the
+   messages whose put was refused; queue.Full is raised exactly for those. *)
+
+(* one call, any state, any line, either answer: same state afterwards as the unbounded call, same exception if it raises
+   one, and its delivery (if any) is what is put -- or refused *)
+Theorem C03_bounded_step : forall st p t env,
+  queue_step_b st p t env =
+  match queue_step st p t with
+  | Raise e => Raise e
+  | Ok (st', out) => Ok (st', bq_gate env out)
+  end.
+Proof. exact queue_step_b_gate. Qed.
+Print Assumptions C03_bounded_step.
+
+(* with every put accepted the bounded queue IS the unbounded queue: everything above transfers *)
+Theorem C03_bounded_all_accepted : forall ins st,
+  (map bq_outs (fst (bq_run queue_step_b st (map (fun i => (i, BqPutOk)) ins))),
+   snd (bq_run queue_step_b st (map (fun i => (i, BqPutOk)) ins))) = asm_run queue_step st ins.
+Proof. exact bq_run_all_accepted. Qed.
+Print Assumptions C03_bounded_all_accepted.
+
+(* every sequence of lines, every pattern of accepted / refused puts, from any state: (1) same end -- final buffer and
+   pending wrapper, or the same escaping exception at the same line --, (2) the sentences put on the queue are the
+   unbounded queue's deliveries at the accepted lines, the very same records, (3) queue.Full exactly at the lines where
+   the unbounded queue delivers and the put is refused, (4) a put is attempted exactly where the unbounded queue delivers *)
+Theorem C03_bounded_backpressure : forall (ios : list bq_input) st,
+  let b := bq_run queue_step_b st ios in
+  let u := asm_run queue_step st (map fst ios) in
+  let accepted := map bq_accepts (map snd ios) in
+  snd b = snd u /\
+  map bq_outs (fst b) = spec_accepted accepted (fst u) /\
+  map bq_is_full (fst b) = spec_refused accepted (fst u) /\
+  map bq_attempted (fst b) = map has_delivery (fst u).
+Proof. exact bq_backpressure. Qed.
+Print Assumptions C03_bounded_backpressure.
+
+(* ... and so is the state after EVERY line, not only the last *)
+Theorem C03_bounded_states : forall (ios : list bq_input) st n,
+  snd (bq_run queue_step_b st (firstn n ios)) = snd (asm_run queue_step st (map fst (firstn n ios))).
+Proof. exact bq_states_equal. Qed.
+Print Assumptions C03_bounded_states.
+
+(* nothing is ever on a bounded queue that the unbounded queue did not deliver at the same line *)
+Theorem C03_bounded_nothing_new : forall (ios : list bq_input) st i a,
+  nth_error (fst (bq_run queue_step_b st ios)) i = Some (BqPut a) ->
+  nth_error (fst (asm_run queue_step st (map fst ios))) i = Some [a].
+Proof. exact bq_delivered_sub. Qed.
+Print Assumptions C03_bounded_nothing_new.
+
+(* C03 under backpressure.  On every well-formed schedule and for every pattern of accepted / refused puts: no exception
+   other than queue.Full; the deliveries are the specified ones at the accepted lines -- hence each delivered message is
+   one complete fragment set in fragment-number order, delivered at the arrival of its last fragment and never again, and
+   no delivered message mixes fragments of two messages --; queue.Full is raised exactly where a message is due and the put
+   is refused; the slot table ends as that of the unbounded queue (a refused message leaves nothing behind). *)
+Theorem C03_bounded_queue : forall s (ios : list bq_input), WF s -> map fst ios = schedule_lines s ->
+  exists outs st, bq_run queue_step_b asm_init ios = (outs, Ok st) /\
+    snd (asm_run queue_step asm_init (schedule_lines s)) = Ok st /\
+    map (map delivery_of) (map bq_outs outs) = spec_accepted (map bq_accepts (map snd ios)) (spec_deliveries s) /\
+    map bq_is_full outs = spec_refused (map bq_accepts (map snd ios)) (spec_deliveries s).
+Proof. exact bq_deliveries_correct. Qed.
+Print Assumptions C03_bounded_queue.
+
+(* non-vacuity: the schedule above with the put of its first assembled message (line 3, message 0 in slot (1, A)) refused.
+   Message 0 is dropped whole; message 3, which uses slot (1, A) next, is not delivered by its first fragment. *)
+Definition ex_puts : list bq_put := [BqPutOk; BqPutOk; BqPutOk; BqPutFull; BqPutOk; BqPutOk; BqPutOk; BqPutOk].
+Definition ex_ios : list bq_input := combine (schedule_lines ex_schedule) ex_puts.
+
+Example C03_bounded_nonvacuous :
+  map fst ex_ios = schedule_lines ex_schedule /\
+  map (fun o => map delivery_of (bq_outs o)) (fst (bq_run queue_step_b asm_init ex_ios)) =
+    [ []; []; []; []; []; [mkDelivery [120] [120; 120] [true; false] true None [65]]; [];
+      [mkDelivery [111; 10; 112] [111; 111; 112; 112] [true; false; true; false] true (Some 1) [66]] ] /\
+  map bq_is_full (fst (bq_run queue_step_b asm_init ex_ios)) = [false; false; false; true; false; false; false; false].
+Proof. split; [|split]; vm_compute; reflexivity. Qed.
+
+(* why the ORDER `del self.buffer[slot]` before `super().put(...)` matters (put_line with the two statements exchanged is
+   queue_step_b_put_before_del; it is not the code): the refused message 0 stays in slot (1, A), and the first fragment of
+   message 3 (raw 121) is delivered at once together with the second fragment of message 0 (raw 102) -- a message nobody
+   sent.  The statement of C03_bounded_queue is false of that variant. *)
+Example C03_put_before_del_mixes_messages :
+  nth 6 (map (fun o => map delivery_of (bq_outs o)) (fst (bq_run queue_step_b_put_before_del asm_init ex_ios))) [] =
+    [mkDelivery [121; 10; 102] [121; 121; 102; 102] [true; false; true; false] true (Some 1) [65]] /\
+  nth 6 (spec_accepted (map bq_accepts (map snd ex_ios)) (spec_deliveries ex_schedule)) [] = [].
+Proof. split; vm_compute; reflexivity. Qed.
